@@ -160,7 +160,7 @@ def run(module, cfg=None, workers=1, timeout=600, env=None, coverage=False, simu
     run_id = "%s-%s" % (module, uuid.uuid4().hex[:8])
     meta = os.path.join(OUT, "tlc", run_id)
     os.makedirs(meta, exist_ok=True)
-    cmd = ["java", "-Xss" + xss, "-XX:+UseParallelGC"]
+    cmd = ["java", "-Xss" + xss, "-XX:+UseParallelGC", "-Djava.io.tmpdir=" + meta]      # TLC / SANY scratch files go with the metadir
     if xmx:
         cmd.append("-Xmx" + xmx)
     cmd += ["-cp", JARS, "tlc2.TLC", "-workers", str(workers), "-metadir", meta, "-noGenerateSpecTE"]
